@@ -537,3 +537,77 @@ Lemma html_text_monotone remove void l l' :
 Proof.
   rewrite !html_text_preserved. unfold visible_text. rewrite run_app. apply text_run_extends.
 Qed.
+
+(* ------------------------------------------------------------------ the tree never contains a removable element *)
+Section NoRemovableNode.
+  Variable remove void : list str.
+
+  Definition kids_ok (l : list node) : bool := forallb (node_ok remove) l.
+
+  Lemma node_ok_eq t a x k tl : node_ok remove (Node t a x k tl) = negb (mem_str t remove) && kids_ok k.
+  Proof. reflexivity. Qed.
+
+  Lemma kids_ok_app a b : kids_ok (a ++ b) = kids_ok a && kids_ok b.
+  Proof. unfold kids_ok. apply forallb_app. Qed.
+
+  Definition frame_ok (f : frame) : bool := negb (mem_str (f_tag f) remove) && kids_ok (f_kids f).
+  Definition opt_ok (o : option node) : bool := match o with Some n => node_ok remove n | None => true end.
+
+  Definition vis_ok (v : hvis) : Prop :=
+    frame_ok (top v) = true /\ forallb frame_ok (below v) = true /\ opt_ok (lc v) = true.
+
+  Lemma flush_ok o f : frame_ok f = true -> opt_ok o = true -> frame_ok (flush o f) = true.
+  Proof.
+    intros Hf Ho. destruct o as [n|]; [|exact Hf]. unfold frame_ok, flush in *. cbn [f_tag f_kids opt_ok] in *.
+    apply andb_true_iff in Hf as [H1 H2]. rewrite H1, kids_ok_app, H2. cbn [kids_ok forallb]. rewrite Ho. reflexivity.
+  Qed.
+
+  Lemma nof_ok f : frame_ok f = true -> node_ok remove (node_of_frame f) = true.
+  Proof. intro H. unfold node_of_frame. rewrite node_ok_eq. exact H. Qed.
+
+  Lemma vis_ok_start v g a : mem_str g remove = false -> vis_ok v -> vis_ok (h_start void v g a).
+  Proof.
+    intros Hg [H1 [H2 H3]]. unfold vis_ok, h_start.
+    pose proof (flush_ok (lc v) (top v) H1 H3) as Hf.
+    destruct (mem_str g void); cbn [top below lc forallb opt_ok].
+    - repeat split; auto. rewrite node_ok_eq, Hg. reflexivity.
+    - repeat split.
+      + unfold frame_ok. cbn [f_tag f_kids]. rewrite Hg. reflexivity.
+      + rewrite Hf, H2. reflexivity.
+  Qed.
+
+  Lemma vis_ok_end v g : vis_ok v -> vis_ok (h_end v g).
+  Proof.
+    intros [H1 [H2 H3]]. unfold vis_ok, h_end. destruct (below v) as [|p rest] eqn:E; [rewrite E; auto|].
+    destruct (str_eqb (f_tag (top v)) g); [|rewrite E; auto].
+    cbn [top below lc opt_ok]. cbn [forallb] in H2. apply andb_true_iff in H2 as [Hp Hr].
+    repeat split; auto. apply nof_ok, flush_ok; auto.
+  Qed.
+
+  Lemma vis_ok_data v x : vis_ok v -> vis_ok (h_data v x).
+  Proof.
+    intros [H1 [H2 H3]]. unfold vis_ok, h_data. destruct (lc v) as [[t a tx k tl]|]; cbn [top below lc opt_ok].
+    - repeat split; auto.
+    - repeat split; auto.
+  Qed.
+
+  Lemma close_all_ok below : forall cur, frame_ok cur = true -> forallb frame_ok below = true ->
+    node_ok remove (close_all cur below) = true.
+  Proof.
+    induction below as [|p rest IH]; intros cur Hc Hb; cbn [close_all].
+    - apply nof_ok, Hc.
+    - cbn [forallb] in Hb. apply andb_true_iff in Hb as [Hp Hr]. apply IH; [|exact Hr].
+      apply flush_ok; [exact Hp|]. cbn [opt_ok]. apply nof_ok, Hc.
+  Qed.
+
+  Lemma html_tree_no_removable l : html_wf remove = true ->
+    node_ok remove (tree_of (vis (html_build remove void l))) = true.
+  Proof.
+    intro W. unfold html_build.
+    assert (I : vis_ok (vis (run remove void (h_start void) h_end h_data h_init l))).
+    { apply (inv_run hvis remove void (h_start void) h_end h_data vis_ok vis_ok_start vis_ok_end vis_ok_data).
+      unfold vis_ok, h_init, root_frame, frame_ok. cbn [vis top below lc f_tag f_kids forallb opt_ok kids_ok].
+      unfold html_wf in W. rewrite W. auto. }
+    destruct I as [H1 [H2 H3]]. unfold tree_of. apply close_all_ok; [|exact H2]. apply flush_ok; assumption.
+  Qed.
+End NoRemovableNode.
